@@ -53,6 +53,9 @@ pub struct ChanFreeCase {
     /// spin iterations a consumer keeps an item before releasing it
     pub hold:        u16,
     pub rounds:      u16,
+    /// this consumer sleeps 2 ms after every item (its queue fills up: on the Arc-based Multi kinds the sender then *waits* for room, by design)
+    #[serde(default)]
+    pub slow_consumer: Option<u8>,
     #[serde(default)]
     pub recorded:    Option<Rec>,
 }
@@ -232,6 +235,7 @@ pub fn execute(case: &ChanFreeCase) -> Vec<Rec> {
         let cons_handles: Vec<_> = (0..nc).map(|c| {
             let (clock, arrived, rs, parks_count, pend_skipped) = (&clock, &arrived, &rs, &parks_count, &pend_skipped);
             let (driven, hold) = (case.driven, case.hold);
+            let slow = case.slow_consumer == Some(c as u8);
             scope.spawn(move || {
                 let mut log: Vec<(u32, PollEv)> = vec![];
                 for r in 0..rounds {
@@ -260,6 +264,7 @@ pub fn execute(case: &ChanFreeCase) -> Vec<Rec> {
                                 let rel_ret = clock.fetch_add(1, SeqCst);
                                 log.push((r as u32, PollEv { stream: c as u8, got: Some(v), ended: false, addr, intact_at_receipt: ok1, intact_at_release: ok2, call, ret, rel_call, rel_ret }));
                                 rs[r].delivered[c].fetch_add(1, SeqCst);
+                                if slow { std::thread::sleep(Duration::from_millis(2)); }
                             },
                             Poll::Ready(None) => {
                                 log.push((r as u32, PollEv { stream: c as u8, got: None, ended: true, addr: 0, intact_at_receipt: true, intact_at_release: true, call, ret, rel_call: ret, rel_ret: ret }));
@@ -459,7 +464,10 @@ pub fn judge(case: &ChanFreeCase, focus: Focus, r: &Rec) -> Option<(String, Stri
             if r.stuck.is_empty() { return None; }
             let c = r.stuck[0] as usize;
             let got: HashSet<u64> = deliveries.iter().filter(|p| (uni || p.stream as usize == c) && p.call < r.stuck_at).map(|p| p.got.unwrap()).collect();
-            let missing: Vec<&SendEv> = { let mut m: Vec<&SendEv> = accepted.values().copied().filter(|s| !got.contains(&s.v)).collect(); m.sort_by_key(|s| s.call); m };
+            // (only events that did come out once cancel_all_streams() woke the consumer: an event that never comes out is a loss -- C01 / C03 --, not a lost wake-up)
+            let later: HashSet<u64> = deliveries.iter().filter(|p| (uni || p.stream as usize == c) && p.call >= r.stuck_at).map(|p| p.got.unwrap()).collect();
+            let missing: Vec<&SendEv> = { let mut m: Vec<&SendEv> = accepted.values().copied().filter(|s| !got.contains(&s.v) && later.contains(&s.v)).collect(); m.sort_by_key(|s| s.call); m };
+            if missing.is_empty() { return None; }
             let entry = missing.first().map(|s| format!("{:?}", s.entry)).unwrap_or_default();
             let entry = entry.split('(').next().unwrap_or("").to_string();
             Some((format!("{k}/lost-wakeup/{entry}"),
@@ -544,6 +552,7 @@ pub fn report(case: &ChanFreeCase, focus: Focus) -> RunReport {
                            format!("mode:{}", if case.driven { "driven (parks on Pending)" } else { "spin-polling" })];
     for p in &case.producers { let e = format!("{:?}", p.entry); let c = format!("entry:{}", e.split('(').next().unwrap_or("")); if !classes.contains(&c) { classes.push(c); } }
     if case.origin != 0 { classes.push("origin-near-wrap".into()); }
+    if case.slow_consumer.is_some() { classes.push("full-listener-queue(sender-waits)".into()); }
     if let Some(r) = &case.recorded {
         let verdict = match judge(case, focus, r) { None => Verdict::Pass, Some((signature, detail)) => Verdict::Violation { signature, detail } };
         return RunReport { verdict, nontrivial: true, classes, fingerprint: 0, trace: None, summary: render(r) };
@@ -612,8 +621,10 @@ pub fn replay_live(case: &ChanFreeCase, focus: Focus) -> RunReport {
     }
     let mut live = case.clone();
     live.recorded = None;
-    live.rounds = if live.kind.is_mmap() { 3 } else { live.rounds.max(100) };
-    for i in 0..LIVE_RERUNS {
+    // (the waiting path of the Arc kinds costs the library's 500 ms sleeps: few rounds, few re-executions)
+    let slow = live.slow_consumer.is_some();
+    live.rounds = if live.kind.is_mmap() { 3 } else if slow { 2 } else { live.rounds.max(100) };
+    for i in 0..(if slow { 6 } else { LIVE_RERUNS }) {
         let mut r = std::panic::catch_unwind(std::panic::AssertUnwindSafe(|| report(&live, focus))).unwrap_or_else(|_| RunReport::pass());
         if let Verdict::Violation { signature, detail } = r.verdict {
             r.verdict = Verdict::Violation { signature, detail: format!("{note}reproduced live in re-execution #{}: {detail}", i + 1) };
@@ -639,10 +650,14 @@ pub fn case_strategy(kinds: &'static [ChanKind], driven: Option<bool>) -> BoxedS
         let entries = kind.entries();
         let nprod = 1usize..=4;
         let origin = if oi < 45000 || kind.is_mmap() { 0 } else { u32::MAX - (oi as u32 % 96) };
-        (Just(kind), Just(buffer), Just(max_streams), Just(consumers), Just(origin), Just(max_total),
+        // Arc-based Multi kinds, 1 case in 6: a small buffer, MORE events than it holds and one slow listener (the last one), so that the sender meets
+        // a full listener queue while listeners before it have room -- the documented waiting path (500 ms sleeps: few events, one round)
+        let full_arc = kind.waits_when_full() && oi % 6 == 0;
+        let (buffer, max_streams, consumers, max_total) = if full_arc { let b = if ni % 2 == 0 { 2u8 } else { 4u8 }; (b, b, 2 + (ni % 2) as u8 * (b / 4), b as u16 + 1 + (ci % 3)) } else { (buffer, max_streams, consumers, max_total) };
+        (Just(kind), Just(buffer), Just(max_streams), Just(consumers), Just(origin), Just(max_total), Just(full_arc),
          proptest::collection::vec((any::<u16>(), 1u16..=40), nprod).prop_map(move |ps| ps.into_iter().map(|(e, n)| Prod { entry: pick(&entries, e), events: n }).collect::<Vec<_>>()),
          any::<bool>(), prop_oneof![Just(0u16), Just(0u16), Just(8u16), Just(64u16), Just(400u16)], 20u16..=60)
-    }).prop_map(move |(kind, buffer, max_streams, consumers, origin, max_total, mut producers, drv, hold, rounds)| {
+    }).prop_map(move |(kind, buffer, max_streams, consumers, origin, max_total, full_arc, mut producers, drv, hold, rounds)| {
         // keep the total below the bound (waiting kinds)
         let mut total: u16 = producers.iter().map(|p| p.events).sum();
         while total > max_total {
@@ -651,13 +666,15 @@ pub fn case_strategy(kinds: &'static [ChanKind], driven: Option<bool>) -> BoxedS
         producers.retain(|p| p.events > 0);
         if producers.is_empty() { producers.push(Prod { entry: Entry::Send, events: 1 }); }
         // (every mmap log channel maps a large region of address space: few live at a time)
-        let rounds = if kind.is_mmap() { 3 } else { rounds };
-        ChanFreeCase { kind, buffer, max_streams, origin, producers, consumers, driven: driven.unwrap_or(drv), hold, rounds, recorded: None }
+        let rounds = if kind.is_mmap() { 3 } else if full_arc { 1 } else { rounds };
+        if full_arc { producers.truncate(2); }
+        let slow_consumer = if full_arc { Some(consumers - 1) } else { None };
+        ChanFreeCase { kind, buffer, max_streams, origin, producers, consumers, driven: driven.unwrap_or(drv), hold, rounds, slow_consumer, recorded: None }
     }).boxed()
 }
 
 const RULE_COMMON: &str = "free-running (real OS threads at full speed, no scheduler; the OS owns the interleaving, so a case is a workload, not an execution): channel kind x (BUFFER_SIZE, MAX_STREAMS) from the menu {(2,1),(2,2),(4,1),(4,2),(4,4),(8,2),(8,4),(16,16),(64,8)} \
- [Arc-based Multi kinds: buffer >= 16 and fewer events than the buffer holds, they wait when full] x sequence origin {0 | within 96 of the u32 wrap} x 1..4 producer threads each sending 1..40 events through one entry point \
+ [Arc-based Multi kinds: buffer >= 16 and fewer events than the buffer holds, they wait when full -- except 1 case in 6: BUFFER_SIZE 2 / 4, 1..3 events more than it holds, the last of 2..3 listeners sleeping 2 ms per item, one round: the documented waiting path] x sequence origin {0 | within 96 of the u32 wrap} x 1..4 producer threads each sending 1..40 events through one entry point \
  (send, send_with, send_with_async whose setter suspends 0..2 times, reserve_slot+try_send_reserved, send_derived), retrying a rejected send with a fresh payload value until accepted x 1..min(MAX_STREAMS,4) consumer threads (Uni: streams; Multi: listeners created up front) \
  that either poll in a loop or park on Pending until the waker the channel holds is invoked, keeping each item for {0,8,64,400} spins before releasing it x 20..60 executions (rounds) per case on fresh channels, threads started together through a spin barrier; \
  after the producers have returned the coordinator waits for the deliveries, calls cancel_all_streams() and the consumers poll until end-of-stream; then streams and channel are dropped; \
